@@ -210,6 +210,14 @@ class Check:
         self.prepare()
         if self.bdir is not None or not self.needs_native:
             self.body()
+            # thorough tier: the whole body again on further independent random streams
+            reps = int(os.environ.get("VERIF_THOROUGH_REPS", "3")) if self.tier == "thorough" else 1
+            for k in range(1, reps):
+                if any(v.failing_input for v in self.violations):
+                    break
+                self.rng = random.Random((self.seed + 7919 * k) * 1000003 + int(self.pid[1:]))
+                self.body()
+            self.cov["random_streams"] = reps
         return self.finish()
 
 
